@@ -15,9 +15,11 @@ GUARD = 'PYSYNCOBJ_VERIF'
 
 # theorem files shared by several properties: the refinement of the L1 model to abstract Raft (log matching, leader
 # completeness, state-machine safety, committed entries never change) is an obligation of each of these
-SHARED_PROPS = {'C01': ['TierC', 'TierC2', 'TierC3', 'TierC4', 'TierC5'], 'C03': ['TierC', 'TierC2', 'TierC3', 'TierC4', 'TierC5'],
-                'C04': ['TierC', 'TierC2', 'TierC3', 'TierC4', 'TierC5'], 'C09': ['TierC3', 'TierC4', 'TierC5'], 'C11': ['TierC3'],
-                'C17': ['TierC5']}
+SHARED_PROPS = {'C01': ['TierC', 'TierC2', 'TierC3', 'TierC4', 'TierC5', 'TierC6'],
+                'C02': ['C02b'],
+                'C03': ['TierC', 'TierC2', 'TierC3', 'TierC4', 'TierC5'],
+                'C04': ['TierC', 'TierC2', 'TierC3', 'TierC4', 'TierC5'], 'C09': ['TierC3', 'TierC4', 'TierC5', 'TierC6'],
+                'C11': ['TierC3'], 'C12': ['TierC6'], 'C17': ['TierC5'], 'C20': ['C20b']}
 
 BASE_TRUSTED = [
     'Coq 8.16.1 kernel (coqc); vm_compute conversion is used to evaluate the model in the correspondence check, '
@@ -195,6 +197,11 @@ class Ctx(object):
             'repo_digest': repo_digest(),
             'known_findings_reported': self.known_lines,
         }
+        try:
+            from . import cov as _cov
+            _cov.attach_default(self)
+        except Exception as e:          # a measurement, never a reason to fail a check
+            self.extra['source_coverage'] = {'error': repr(e)}
         cov.update(self.extra)
         ev = {
             'property_id': self.pid,
